@@ -12,8 +12,16 @@
       [splay] is [Leaf], never a [Node]), so it is not stated.
     - [step_refines] is stated with [fst]/[snd]; [step_refines_let] is the
       destructuring-let form.
-    - [insert_keeps_others] holds without [Inv]; the hypothesis is kept in the
-      statement for uniformity with [remove_keeps_others] (which needs it). *)
+    - After the section closes every result is generalised over exactly the
+      hypotheses its proof uses.  Hence [go_inorder], [splay_inorder], [nxt_spec],
+      [nxt_back_spec], [lookups_keep_elements], [lookups_keep_elements_many],
+      [Inv_empty], [drain_refines] and [iteration_sorted] take only [K V cmp] (or
+      [K V]); [splay_split], [step_Inv], [step_refines], [history_refines],
+      [history_refines_empty], [insert_keeps_others], [remove_keeps_others] take
+      [K V cmp cmp_eq cmp_antisym cmp_trans].
+    - [Inv] is defined through [Inv_list]/[ids_ok]/[sorted]; [Inv_unfold] shows it is
+      (definitionally) the four-part conjunction: keys [StronglySorted], [size] =
+      length, [NoDup] of the [eid]s, every [eid] below [next_id]. *)
 From Coq Require Import List PArith Arith Lia Sorted Permutation.
 From GB Require Import Splay SplayOps.
 Import ListNotations.
@@ -62,9 +70,6 @@ Proof.
   cbn [map]. destruct l as [|b l]; [reflexivity|].
   exact IH.
 Qed.
-
-Lemma removelast_snoc {A} (l : list A) x : removelast (l ++ [x]) = l.
-Proof. rewrite removelast_app by discriminate. cbn. apply app_nil_r. Qed.
 
 Section Main.
 Variables K V : Type.
@@ -973,13 +978,13 @@ Proof.
   rewrite splay_inorder. reflexivity.
 Qed.
 
-Lemma min_res s : okey (Splay.min s) = sp_key (hd_error (abs s)).
+Lemma min_res (s : Splay.t K V) : okey (Splay.min s) = sp_key (hd_error (abs s)).
 Proof.
   unfold Splay.min. rewrite min_node_spec, abs_eq.
   destruct (inorder (root s)); reflexivity.
 Qed.
 
-Lemma max_res s :
+Lemma max_res (s : Splay.t K V) :
   okey (Splay.max s) =
   sp_key (match abs s with [] => None | x :: _ => Some (last (abs s) x) end).
 Proof.
@@ -1056,7 +1061,7 @@ Theorem step_Inv s o : Inv s -> Inv (fst (step cmp s o)).
 Proof.
   intros HI.
   destruct o as [k v|k|k|k|k|k|k| | | | | |kvs|dirs];
-    try exact (same_state_Inv s _ (lookup_step_same s _ eq_refl) HI);
+    try (apply (same_state_Inv s); [apply lookup_step_same; reflexivity | exact HI]);
     cbn [step]; rewrite ?fst_let; cbn [fst].
   - apply insert_Inv, HI.
   - apply remove_Inv, HI.
@@ -1071,8 +1076,9 @@ Theorem step_refines s o : Inv s ->
 Proof.
   intros HI. pose proof HI as (Hs & Hsz & _).
   destruct o as [k v|k|k|k|k|k|k| | | | | |kvs|dirs];
-    (split; [try exact (same_state_abs s _ (lookup_step_same s _ eq_refl))|]);
-    cbn [step sp_step fst snd]; rewrite ?fst_let, ?snd_let; cbn [fst snd].
+    (split; cbn [sp_step fst snd];
+     [try (apply same_state_abs, lookup_step_same; reflexivity)|]);
+    cbn [step]; rewrite ?fst_let, ?snd_let; cbn [fst snd].
   - apply insert_refines, HI.
   - apply insert_refines, HI.
   - apply remove_refines, HI.
@@ -1114,7 +1120,7 @@ Proof.
   cbn [fst snd] in *. subst m' r'. f_equal. exact (IH s' HI').
 Qed.
 
-Corollary history_refines_empty ops : run cmp empty ops = sp_run cmp [] ops.
+Corollary history_refines_empty (ops : list (op K V)) : run cmp empty ops = sp_run cmp [] ops.
 Proof. exact (history_refines ops empty Inv_empty). Qed.
 
 (** ** 7. In-order iteration *)
@@ -1181,6 +1187,14 @@ Theorem height_chain n : height (root (chain n)) = n.
 Proof. rewrite chain_shape. apply height_lch. Qed.
 
 End Chain.
+
+Print Assumptions splay_split.
+Print Assumptions step_refines.
+Print Assumptions history_refines_empty.
+Print Assumptions lookups_keep_elements_many.
+Print Assumptions insert_keeps_others.
+Print Assumptions remove_keeps_others.
+Print Assumptions iteration_sorted.
 
 Print Assumptions history_refines.
 Print Assumptions step_Inv.
